@@ -119,7 +119,7 @@ fn check_prog_(p: &Prog, seed: u64, tier: Tier, st: &mut Stats, dual_normals: bo
     let h = if rng.chance(0.25) { w } else { 1 + rng.below(max_side) as u32 };
     let d = if rng.chance(0.25) { w } else { 1 + rng.below(max_side) as u32 };
     let (_, mut tiles) = random_tile_sizes(rng, 4, 64);
-    if rng.chance(0.5) && *tiles.last().unwrap() > 4 {
+    if rng.chance(0.5) && *tiles.last().unwrap() > 4 && *tiles.last().unwrap() % 4 == 0 {
         tiles.push(4);
     }
     let su = Setup {
